@@ -37,7 +37,8 @@ import (
 
 type rawFinding struct {
 	caseIdx int
-	hist    []Op   // the (prefix of the) history the finding was made on
+	hist    []Op // the (prefix of the) history the finding was made on
+	histLen int
 	label   int    // snapshot label of the judged region (0: all reverted regions)
 	oracle  string // twin | twin-nodiff | accessor | stale
 	addr    common.Address
@@ -286,6 +287,7 @@ func evalCase(r *mon.Run, d account.AccountDatabase, c Case, ci int, stats bool)
 			}
 		}
 		f.raw = f.oracle + "|" + f.kind + "|" + cls + "|" + famList(fams)
+		f.histLen, f.hist = len(f.hist), nil // phase 2 regenerates the case (memory)
 	}
 	return out
 }
@@ -296,6 +298,9 @@ func reduce(r *mon.Run, d account.AccountDatabase, c Case, f rawFinding, budget 
 }
 
 func reduceDepth(r *mon.Run, d account.AccountDatabase, c Case, f rawFinding, budget int, depth int) {
+	if f.hist == nil {
+		f.hist = c.Hist[:f.histLen]
+	}
 	h := append([]Op(nil), f.hist...)
 	fm := c.Final
 	safe := func(p func() bool) (ok bool) {
@@ -575,8 +580,8 @@ func cleanupScratch() {
 // runCases: phase 1 evaluates every case (parallel, one AccountDatabase per worker,
 // recycled), phase 2 minimises the first few findings of every raw class in
 // case-index order (so the selection does not depend on scheduling).
-func runCases(r *mon.Run, cases []Case, workers int, perClass int, budget int) {
-	findings := make([][]rawFinding, len(cases))
+func runCases(r *mon.Run, n int, get func(i int) Case, workers int, perClass int, budget int) {
+	findings := make([][]rawFinding, n)
 	var wg sync.WaitGroup
 	ch := make(chan int, workers)
 	for w := 0; w < workers; w++ {
@@ -588,12 +593,12 @@ func runCases(r *mon.Run, cases []Case, workers int, perClass int, budget int) {
 				if used++; used%200 == 0 {
 					d = newDB()
 				}
-				c := cases[i]
+				c := get(i)
 				r.Guard("C04:run", c, func() { findings[i] = evalCase(r, d, c, i, true) })
 			}
 		}()
 	}
-	for i := range cases {
+	for i := 0; i < n; i++ {
 		ch <- i
 	}
 	close(ch)
@@ -611,7 +616,7 @@ func runCases(r *mon.Run, cases []Case, workers int, perClass int, budget int) {
 		if all[i].caseIdx != all[j].caseIdx {
 			return all[i].caseIdx < all[j].caseIdx
 		}
-		return len(all[i].hist) < len(all[j].hist)
+		return all[i].histLen < all[j].histLen
 	})
 	taken := map[string]int{}
 	var todo []rawFinding
@@ -633,7 +638,10 @@ func runCases(r *mon.Run, cases []Case, workers int, perClass int, budget int) {
 					d = newDB()
 				}
 				f := todo[i]
-				c := cases[f.caseIdx]
+				c := get(f.caseIdx)
+				if p, _ := firstOutOfScopePanic(d, c.Hist); p >= 0 {
+					c.Hist = c.Hist[:p] // as judged in phase 1
+				}
 				r.Guard("C04:reduce", c, func() { reduce(r, d, c, f, budget) })
 			}
 		}()
@@ -651,21 +659,25 @@ func childMain(args []string) {
 	n, _ := strconv.Atoi(args[1])
 	workers, _ := strconv.Atoi(args[2])
 	bootMode(mode)
-	var cases []Case
-	cases = append(cases, directedCases(mode)...)
-	r.Count("directed_histories", int64(len(cases)))
-	for i := 0; i < n; i++ {
-		cases = append(cases, genCase(r.Rand("hist", mode, i), mode, i))
+	directed := directedCases(mode)
+	r.Count("directed_histories", int64(len(directed)))
+	total := len(directed) + n
+	get := func(i int) Case {
+		if i < len(directed) {
+			return directed[i]
+		}
+		return genCase(r.Rand("hist", mode, i-len(directed)), mode, i-len(directed))
 	}
-	for _, i := range []int{len(cases) - 1, len(cases) - 2} {
+	for _, i := range []int{total - 1, total - 2, 0} {
 		if i >= 0 {
-			r.Sample(map[string]interface{}{"mode": mode, "index": cases[i].Index, "final": cases[i].Final, "history": trim(describe(cases[i].Hist))})
+			c := get(i)
+			r.Sample(map[string]interface{}{"mode": mode, "index": c.Index, "final": c.Final, "history": trim(describe(c.Hist))})
 		}
 	}
-	runCases(r, cases, workers, r.Pick(2, 6), 800)
-	r.Count("mode_"+mode+"_histories", int64(len(cases)))
+	runCases(r, total, get, workers, r.Pick(2, 6), 800)
+	r.Count("mode_"+mode+"_histories", int64(total))
 	cleanupScratch()
-	r.Finish(mon.Coverage{Evaluations: int64(len(cases))})
+	r.Finish(mon.Coverage{Evaluations: int64(total)})
 }
 
 func main() {
@@ -689,7 +701,7 @@ func main() {
 		}
 		bootMode(w.Case.Mode)
 		fmt.Printf("replaying %s history (%s):\n  %s\n", w.Case.Mode, v.Signature, strings.Join(describe(w.Case.Hist), "\n  "))
-		runCases(r, []Case{w.Case}, 1, 1000, 800)
+		runCases(r, 1, func(int) Case { return w.Case }, 1, 1000, 800)
 		cleanupScratch()
 		r.Finish(mon.Coverage{Evaluations: 2, DistinctNontrivial: 2, Rule: "replay of one recorded history"})
 	}
